@@ -20,12 +20,13 @@ ASSUMPTIONS = [
     "floats returned for decimal counts are encoded as rationals p/q (q <= 10^6, rel. residual <= 1e-12)",
 ]
 
-QUICK = ["nest_q", "counts_q", "hyd_q", "decor_q", "symbols", "symsuf", "faults_q"]
-THOROUGH = ["nest_t", "counts_t", "hyd_t", "decor_t", "symbols", "symsuf", "faults_t"]
+QUICK = ["nest_q", "counts_q", "hyd_q", "decor_q", "prefix2_q", "symbols", "symsuf", "faults_q"]
+THOROUGH = ["nest_t", "counts_t", "hyd_t", "decor_t", "prefix2_t", "symbols", "symsuf", "faults_t"]
 ACTIONS = {
     "nest_q": ["GenAtom", "GenOpen", "GenClose", "Finish"],
     "hyd_q": ["GenHydrate", "GenCharge"],
     "decor_q": ["GenPrefix", "GenPrime", "GenCharge", "GenSuffix"],
+    "prefix2_q": ["GenPrefix", "GenCharge", "GenSuffix"],
     "faults_q": ["GenBadSymbol", "GenStray", "GenMismatch", "GenUnclosed", "GenContradictory"],
 }
 
@@ -77,6 +78,14 @@ def replay_case(case):
         bad.append(("formula_to_composition", o1))
     if not _agrees(o2, case["exp"]):
         bad.append(("Substance.from_formula", o2))
+    # the phase-aware constructor reads the same composition, whether the phase index comes from the suffix
+    # or is given explicitly
+    from chempy import Species
+    for what, mk in (("Species.from_formula", lambda s: Species.from_formula(s).composition),
+                     ("Species.from_formula[phase_idx=0]", lambda s: Species.from_formula(s, phase_idx=0).composition)):
+        o3 = fc.observe(mk, t)
+        if not _agrees(o3, case["exp"]):
+            bad.append((what, o3))
     return bad
 
 
